@@ -11,7 +11,8 @@ from . import c02
 ID = "C11"
 LEVEL = "exploration"
 RULE = ("the tree / option catalogue of C02 (structural trees with hard links, -S symlinks, --isolate; hostile file names) x "
-        "op {remove, link, link --soft, dedupe (FICLONE emulated), move} x option sets: (1) --dry-run -> script + summary; "
+        "op {remove, link, link --soft, dedupe (FICLONE emulated), move} x option sets, also with a stale report (a member "
+        "of the first / second / third group deleted after `group`): (1) --dry-run -> script + summary; "
         "(2) real run under the shim -> inventory, summary, call log; (3) for remove / link / link --soft the tree is "
         "rebuilt at the same paths and the printed script is executed with bash. Oracle: the operations named by the "
         "script (kind, file, link target) equal the operations observed in the call log of the real run; script groups "
@@ -46,6 +47,11 @@ def cases(tier, seed):
                         continue
                     out.append({"kind": "triple", "tree": tname, "roots": roots, "gargs": gargs, "entries": entries,
                                 "fmt": fmt, "op": op, "n": n, "prio": prio, "pat": pat})
+                    if tname in ("s:three_groups", "s:hard_links", "n:0") and n is None and prio is None and pat is None:
+                        # stale report: a member of the gi-th group vanished after `group` (the group is then skipped)
+                        for gi in (0, 1, 2):
+                            out.append({"kind": "triple", "tree": tname, "roots": roots, "gargs": gargs, "entries": entries,
+                                        "fmt": fmt, "op": op, "n": n, "prio": prio, "pat": pat, "vanish": gi})
     ngroups = 4 if quick else 5
     for op in ("remove", "link", "softlink", "move"):
         out.append({"kind": "orders", "ngroups": ngroups, "op": op})
@@ -108,14 +114,21 @@ def evaluate(case):
         entries = [dict(e, to=e["to"].replace("@TREE@", sc.tree)) if e["k"] == "sym" else e for e in case["entries"]]
         target = os.path.join(sc.root, "moved")
 
+        vanished = []
+
         def rebuild():
             C.rmtree(sc.tree)
             C.rmtree(target)
             os.makedirs(sc.tree)
             C.make_tree(sc.tree, entries)
+            for p in vanished:
+                os.unlink(p)
         rebuild()
         report = D.make_report(sc, ["--min", "0"] + case["gargs"], case["roots"], fmt=case["fmt"])
         rep = D.report_groups(report)
+        if case.get("vanish") is not None and case["vanish"] < len(rep.groups):
+            vanished.append(rep.groups[case["vanish"]]["paths"][-1])
+            os.unlink(vanished[0])
         dargs = []
         if case["n"]:
             dargs += ["-n", str(case["n"])]
@@ -125,7 +138,8 @@ def evaluate(case):
             dargs += ["--name", "[ab]*"]
         elif case["pat"] == "keep":
             dargs += ["--keep-name", "[abA]*"]
-        ctx = "tree %s `%s %s` (group args %s, %s report)" % (case["tree"], case["op"], dargs, case["gargs"], case["fmt"])
+        ctx = "tree %s `%s %s` (group args %s, %s report%s)" % (case["tree"], case["op"], dargs, case["gargs"], case["fmt"],
+                                                                 ", member of group %s vanished" % case["vanish"] if vanished else "")
         dry = D.run_dedupe(sc, case["op"], dargs, report, dry_run=True, target=target)
         if dry["rc"] != 0 or dry["timeout"]:
             viol.append(dict(feat, kind="dry_run_failed", detail="%s: %s" % (ctx, dry["err"][-300:])))
@@ -179,7 +193,7 @@ def evaluate(case):
                 d = [p for p in sorted(set(r1) | set(r2)) if shape(r1).get(p) != shape(r2).get(p)]
                 viol.append(dict(feat, kind="tree_differs", detail="%s: after the real run vs after `bash script`: %s; partitions %s vs %s" % (
                     ctx, [(p, shape(r1).get(p), shape(r2).get(p)) for p in d[:3]], partition(r1)[:3], partition(r2)[:3])))
-    return {"violations": viol, "nontrivial": [case["tree"], case["op"], case["fmt"], case["n"], case["prio"], case["pat"]] if sops else None,
+    return {"violations": viol, "nontrivial": [case["tree"], case["op"], case["fmt"], case["n"], case["prio"], case["pat"], case.get("vanish")] if sops else None,
             "outcome": "script_with_ops" if sops else "empty_script", "evaluations": 3,
             "sample": {"tree": case["tree"], "op": case["op"], "args": dargs, "script_head": dry["out"][:300]}}
 
